@@ -350,6 +350,7 @@ func checkC13(c CaseC13, info *Info) *Failure {
 	}
 	nd += prologs
 	stream.WriteString(c.Trail)
+	bystanders() // whatever else the library did between the direct decodes and the stream must not matter
 	data := stream.Bytes()
 	sr := &schedReader{data: data, sched: c.Sched, eofWith: c.EOFWith, bounds: bounds, cycle: c.Cycle && hasPositive(c.Sched)}
 	var rdr io.Reader = sr
@@ -396,6 +397,9 @@ func checkC13(c CaseC13, info *Info) *Failure {
 		mh := func(m mxj.Map) bool {
 			calls++
 			got = append(got, m)
+			if calls%2 == 1 {
+				bystanders() // a handler works with the library while the stream is open
+			}
 			return calls != c.Stop
 		}
 		mhr := func(m mxj.Map, r []byte) bool {
